@@ -5,6 +5,7 @@ import chain_checks
 import server_checks
 import envelope_checks
 import misc_checks
+import idl_checks
 
 CHECKS = {
     "C01": (conn_checks.c01, conn_checks.replay_framing),
@@ -18,6 +19,8 @@ CHECKS = {
     "C09": (server_checks.c09, server_checks.replay_server),
     "C10": (server_checks.c10, server_checks.replay_server),
     "C11": (chain_checks.c11, chain_checks.replay_chain),
+    "C13": (idl_checks.c13, idl_checks.replay_idl),
+    "C14": (idl_checks.c14, idl_checks.replay_idl),
     "C17": (write_checks.c17, write_checks.replay_writing),
     "C18": (server_checks.c18, server_checks.replay_server),
     "C19": (misc_checks.c19, misc_checks.replay_generic),
